@@ -74,6 +74,7 @@ def run(pid, tier, seed):
     lines = []
     for i, (run_re, env, st, mode) in enumerate([
             ("^TestVerifRDLVirtual$", {"VERIF_SCEN": scen, "VERIF_RANDOM": 30 if tier == "quick" else 400}, True, "virtual"),
+            ("^TestVerifRDLBoundary$", {"VERIF_REPS": 3 if tier == "quick" else 12}, True, "virtual, setter at the expiry instant"),
             ("^TestVerifRDLRealtime$", {"VERIF_SCEN": scen_rt}, False, "real time, asynctimerchan=1")]):
         tp = os.path.join(d, "t%d.trace" % i)
         e = {"VERIF_TRACE": tp, "VERIF_SEED": seed}
